@@ -75,7 +75,7 @@ func shuffle(t *core.Tape, a []string) []string {
 }
 
 func genCase(t *core.Tape, opt core.RunOpt) *Case {
-	w, m := world.Generate(t, world.GenOpt{MinPkgs: 3, MaxPkgs: 7, NeedDepth2: true, CleanChance: 2})
+	w, m := world.Generate(t, world.GenOpt{MinPkgs: 3, MaxPkgs: 7, NeedDepth2: true, CleanChance: 2, ReadFaults: true, LineDirectives: true, DirExclude: true})
 	c := &Case{World: w}
 	add := func(label, variant string, ex driver.Exec, sc sched.Config) {
 		if ex.Rerun == 0 && ex.Driver != "vet" {
@@ -129,6 +129,9 @@ func genCase(t *core.Tape, opt core.RunOpt) *Case {
 	for i := range c.Execs {
 		if c.Execs[i].Ex.Driver == "vet" {
 			c.Execs[i].Ex.Transport = "files"
+		} else if i > 0 && t.Chance(1, 2) {
+			// the standalone driver parses all files concurrently: position bases vary from run to run
+			c.Execs[i].Ex.ParseSeed = uint64(1 + t.Draw(1<<20))
 		}
 	}
 	// expectation oracles need worlds without @ignore / exclude-checks
